@@ -1,7 +1,7 @@
 #!/bin/bash
 # tools/try_seed.sh <Cxx> <worktree> <k> [suite]   - verify a seeded change and run the check against it
 P=$1; WT=$2; K=$3
-M=$WT/MUTANTS/$K
+M=$WT/${SEED_DIR:-MUTANTS}/$K
 cd $WT || exit 2
 git checkout -q -- . 
 echo "== demo on clean tree (expect 0)"; PYTHONPATH=$WT/src /venv/bin/python -W ignore $M/demo.py > /tmp/seed_demo_clean.txt 2>&1; echo "exit=$?"
